@@ -226,6 +226,8 @@ def run(ctx, params):
     for name, units, cx, c in results:
         counter[0] = 0
         t, dets, obs = tableau.run_units(units, n, fresh, cx)
+        if ctx.mode != 'conc':
+            ctx.stats['model_steps'] = ctx.stats.get('model_steps', 0) + len(units)   # tableau updates executed (evidence: transitions)
         info = {'variant': name, 'spec': spec_base, 'mode': params['mode'], 'data': params.get('data'), 'ancilla': params.get('ancilla')}
         ctx.observe(f'{name}.n_meas', len(t.record))
         ctx.check('C09.record.length', len(t.record) == len(want), dict(info, measured=len(t.record), prescribed=len(want)))
